@@ -151,6 +151,45 @@ def check_texts_nonempty(ctx):
 from . import c16  # noqa: E402
 
 
+def check_filtered_bulk_insert(ctx):
+  """EXC-ruby: ISD generation prunes children (inactive at t, display=none, other region) and then
+  hands what is left to push_children.  For element kinds whose push_children accepts only a closed
+  set of child sequences (Ruby: rb rt | rb rp rt rp | rbc rtc [rtc]; Rtc: [rp] rt* [rp]) a pruned
+  list is rejected with ValueError, which nothing catches: the snapshot fails."""
+  ix = ctx.ix
+  pe = ix.func("ttconv.isd:ISD._process_element")
+  ctx.unit(pe.module)
+  calls = [c for c in own_nodes(pe.node) if isinstance(c, ast.Call) and isinstance(c.func, ast.Attribute) and c.func.attr == "push_children" and len(c.args) == 1 and isinstance(c.args[0], ast.Name)]
+  if not calls:
+    raise AnalysisError("_process_element: no push_children(<list>) call found")
+  call = calls[0]
+  lst = call.args[0].id
+  filtered = any(isinstance(a, ast.Call) and isinstance(a.func, ast.Attribute) and a.func.attr == "append" and unparse(a.func.value) == lst and
+                 any(isinstance(p_, ast.If) for p_ in _ancestors(a, pe.node)) for a in own_nodes(pe.node))
+  caught = any(isinstance(t, ast.Try) and any(x is call for x in ast.walk(t)) for t in own_nodes(pe.node))
+  base = ix.cls("ttconv.model:ContentElement")
+  strict = []
+  for c in ix.all_subclasses(base):
+    m = c.methods.get("push_children")
+    if m is not None and any(isinstance(r, ast.Raise) and r.exc is not None and "ValueError" in unparse(r.exc) for r in own_nodes(m.node)):
+      strict.append(c)
+  ctx.floor("EXC-ruby", "element kinds whose push_children validates the child sequence", len(strict), 1)
+  for c in sorted(strict, key=lambda k: k.name):
+    ctx.check(not filtered or caught, "EXC-ruby", f"{pe.qualname}|{short(call, 60)}|{c.name}", ctx.where(pe.module, call), "the child list is complete (or the rejection is handled)",
+              f"`{short(call, 60)}` receives the children that survived pruning; {c.name}.push_children raises ValueError unless they form one of its complete sequences, and no handler encloses the call: "
+              f"a {c.name.lower()} with a part that is inactive at the snapshot time (or that never had one, e.g. WebVTT <ruby> without <rt>) makes ISD generation fail")
+
+
+def _ancestors(n, stop):
+  from ..core import parent as _p
+  out = []
+  n = _p(n)
+  while n is not None and n is not stop:
+    out.append(n)
+    n = _p(n)
+  return out
+
+
 def optional_field_names(ix):
   """Names of dataclass fields of the model / style value types that may hold None (annotated
   Optional or defaulting to None) in every dataclass that declares a field of that name."""
@@ -194,7 +233,9 @@ def run(ctx):
   check_texts_nonempty(ctx)
   # NUL
   nul.IMPLICATIONS.clear()
-  if c11.check_ruby_invariant(ctx):
+  RUBY_INV_OK = c11.RUBY_INV_OK
+  RUBY_INV_OK[0] = bool(c11.check_ruby_invariant(ctx))
+  if RUBY_INV_OK[0]:
     nul.IMPLICATIONS.append((c11.RUBY_GUARD, True, {"self.ruby_rbc", "self.ruby_rtc"}))
   src = nul.NullSources(call_names={"get_caption_to_process", "vtt_timestamp_to_secs"}, regex_methods=True, iter_funcs={"_none_terminated"}, fields={"ruby_rbc", "ruby_rtc"},
                         getter_paths={"get_caption_to_process()"})
@@ -207,6 +248,10 @@ def run(ctx):
   ctx.floor("NUL-parent", "parent() stores in the text parsers", np_, 2)
   c04.check_optional_arithmetic(ctx, common.funcs(ctx, ["ttconv.imsc.elements"]))
   check_optional_fields(ctx)
+  # the paragraph under construction does not exist before the first block that opens a subtitle
+  ncp = nul.check_sources(ctx, [m_ for m_ in ctx.ix.cls("ttconv.stl.datafile:DataFile").methods.values() if m_.name != "__init__"], nul.NullSources(fields={"cur_p_element"}), rule="NUL-field")
+  ctx.floor("NUL-field", "dereferences of DataFile.cur_p_element", ncp, 3)
+  check_filtered_bulk_insert(ctx)
   nl = idx.check_lookahead(ctx, common.funcs(ctx, common.READERS + common.WRITERS + ['ttconv.isd']))
   ctx.note(f'IDX-lookahead: {nl} look-ahead subscripts in reader / writer modules')
   # EXC
@@ -223,4 +268,12 @@ def run(ctx):
   # style processors called outside isd.py assert on already-computed dependencies (AssertionError / AttributeError otherwise)
   nco = c16.check_compute_order(ctx, list(ix.funcs.values()))
   ctx.floor("ORD-compute", "external StyleProcessors.*.compute call sites", nco, 1)
+  from ..rules import forbid
+  def _no_ruby_open(test, pol):
+    # INV-ruby (verified above): self.parent is a Ruby => ruby_rbc and ruby_rtc are set; so where both are None the cursor is not a Ruby
+    from ..rules import match as _m
+    parts = test.values if isinstance(test, ast.BoolOp) and isinstance(test.op, ast.Or) and not pol else ([test] if not pol else [])
+    return any(_m.is_none_test(p_, lambda e: unparse(e) in ("self.ruby_rbc", "self.ruby_rtc")) is False for p_ in parts)
+  nfr = forbid.check_forbidden_receivers(ctx, ctx.ix.cls("ttconv.vtt.reader:_TextCueParser"), implications={"Ruby": _no_ruby_open} if RUBY_INV_OK[0] else None) + forbid.check_forbidden_receivers(ctx, ctx.ix.cls("ttconv.srt.reader:_TextParser"))
+  ctx.floor("RAISE-guard", "calls on the parsers' cursor of methods that always raise for a class the cursor can hold", nfr, 1)
   common.check_history_independence(ctx, MODS)
